@@ -366,6 +366,12 @@ fn enumerate_c11(a: &Args, index: u64, out: &mut impl Write) -> Option<Replay> {
     let mut rng = Rng::new(run_seed, gen::STREAM_WORKLOAD);
     let prefix = gen::gen_small_world(&mut rng, 0, if a.thorough { 14 } else { 9 });
     let enc = (index % medium::NENC as u64) as u8;
+    // Every third base world is read through `deserialize_in_place` over a populated world.
+    let in_place = index % 3 == 2;
+    let mut prefix = prefix;
+    if in_place {
+        prefix.extend(gen::gen_small_world(&mut rng, 1, 4));
+    }
     let cont = gen::gen_continuation(&mut rng, 1, 5);
     // Dry run to learn the stream length and per-token alteration counts.
     let dry = run_ops(&prefix, 2, run_seed, false, Some((0, enc)));
@@ -437,7 +443,7 @@ fn enumerate_c11(a: &Args, index: u64, out: &mut impl Write) -> Option<Replay> {
     let mut distinct = std::collections::BTreeSet::new();
     for fs in faults {
         let mut ops = prefix.clone();
-        ops.push(Op::Corrupt { src: 0, dst: 1, enc, faults: fs.clone() });
+        ops.push(Op::Corrupt { src: 0, dst: 1, enc, faults: fs.clone(), in_place });
         ops.extend(cont.iter().cloned());
         attempts += 1;
         if let Some(rep) = attempt_header(a, out, index, &format!("{attempts}"), run_seed, &ops) {
@@ -528,8 +534,8 @@ fn c17_target(rng: &mut Rng, which: usize) -> Op {
         6 => Op::CloneFrom { src: 0, dst: 1 },
         7 => Op::EqCheck { a: 0, b: 1 },
         8 => Op::DebugFmt { slot: 0 },
-        9 => Op::RoundTrip { src: 0, dst: 1, enc: rng.below(crate::medium::NENC as u64) as u8 },
-        10 => Op::RoundTrip { src: 0, dst: 0, enc: rng.below(crate::medium::NENC as u64) as u8 },
+        9 => Op::RoundTrip { src: 0, dst: 1, enc: rng.below(crate::medium::NENC as u64) as u8, in_place: rng.chance(1, 2) },
+        10 => Op::RoundTrip { src: 0, dst: 0, enc: rng.below(crate::medium::NENC as u64) as u8, in_place: false },
         11 => Op::Extend { slot: 0, how: 1, site: rng.below(g::CLONED_SITES.len() as u64) as u16, n: rng.range(1, 4) as u16, extra: 0, seed: rng.next_u64() },
         12 => Op::Crash { slot: 0 },
         // Deserialization of a damaged stream: the destructors that run while the library cleans
@@ -543,6 +549,7 @@ fn c17_target(rng: &mut Rng, which: usize) -> Op {
                 pos: rng.below(1 << 20) as usize,
                 arg: rng.below(8) as i64,
             }],
+            in_place: rng.chance(1, 2),
         },
         _ => Op::Entry {
             slot: 0,
